@@ -453,7 +453,8 @@ func (w *vpWorld) symbolicPreState() {
 	default:
 		cs.ProposalBlock, cs.ProposalBlockParts = w.blocks[pb].block, w.blocks[pb].parts
 	}
-	if pp := pick("Proposal", []int8{cNone, cA, cB, cC}); pp != cNone {
+	// after receipt only Proposal.POLRound (and the timestamp, for metrics) is ever read again: the block it names is irrelevant
+	if pp := pick("Proposal", []int8{cNone, cA}); pp != cNone {
 		pol := vp.Int32("Proposal.POLRound")
 		vp.Assume(vp.And(pol >= -1, pol < cs.Round))
 		cs.Proposal = types.NewProposal(vpH, cs.Round, pol, w.blocks[pp].id)
